@@ -27,6 +27,7 @@ type HarnessCfg struct {
 	Thorough map[string]int `json:"thorough"`
 	Bound    string         `json:"bound"` // human-readable statement of the bound
 	Solver   string         `json:"solver,omitempty"`
+	CrossCheck bool         `json:"crosscheck,omitempty"` // thorough tier: repeat under a second solver and compare
 	Instances []map[string]int `json:"instances,omitempty"` // run once per instance (params merged)
 	QuickInstances []map[string]int `json:"quick_instances,omitempty"`
 }
@@ -331,6 +332,7 @@ func cmdCheck(args []string) {
 	var samples []interface{}
 	totalPaths, totalDec, totalOb, totalDis, totalUnknown, validated := 0, 0, 0, 0, 0, 0
 	totalBranchQ := 0
+	crossRuns, crossAgree := 0, 0
 	var solverS float64
 	var inconclusive []string
 	violations := 0
@@ -408,6 +410,27 @@ func cmdCheck(args []string) {
 			}
 			if res.Unknown > 0 {
 				inconclusive = append(inconclusive, fmt.Sprintf("%s: %d solver answers were unknown/timeouts", hc.Name, res.Unknown))
+			}
+			// "diff two solvers": in the thorough tier the harness is explored again with the
+			// other back end; path count, obligations and candidate counterexamples must agree
+			if tier == 1 && hc.CrossCheck {
+				other := "cvc5"
+				if e.solverKind == "cvc5" {
+					other = "z3-new"
+				}
+				first := e.solverKind
+				e.solverKind = other
+				res2 := e.Explore(h, *workers, 0, time.Duration(budget)*time.Second)
+				e.solverKind = first
+				fmt.Println("  second solver (" + other + "): " + res2.Summary())
+				solverS += res2.SolverS
+				crossRuns++
+				if res2.Paths != res.Paths || len(res2.Violations) != len(res.Violations) || res2.AssertOK != res.AssertOK || res2.Unknown != 0 || len(res2.Inconcl) != 0 {
+					inconclusive = append(inconclusive, fmt.Sprintf("%s: solvers disagree: %s paths=%d ok=%d viol=%d unknown=%d vs %s paths=%d ok=%d viol=%d",
+						hc.Name, first, res.Paths, res.AssertOK, len(res.Violations), res.Unknown, other, res2.Paths, res2.AssertOK, len(res2.Violations)))
+				} else {
+					crossAgree++
+				}
 			}
 			// vacuity: every label must have been reached / evaluated
 			expR, expA := e.expectedLabels(h)
@@ -538,6 +561,8 @@ func cmdCheck(args []string) {
 			"functions_encoded_total":       len(funcs),
 			"solver":                        e.solverKind,
 			"solver_s":                      solverS,
+			"second_solver_runs":            crossRuns,
+			"second_solver_agreements":      crossAgree,
 			"load_and_build_ssa_s":          loadS,
 			"inconclusive":                  inconclusive,
 			"outside_the_claim":             cfg.Outside,
